@@ -219,6 +219,9 @@ func startShape(s shape, r *vx.Rand) *shapeRun {
 	w := hub.NewWorld(rec, hub.Options{Full: lean, Seed: r.U64(), Splits: s.layout, Stores: s.stores})
 	sr := &shapeRun{w: w, s: s}
 	sr.ctx, sr.cancel = context.WithCancel(context.Background())
+	if os.Getenv("HUBRUN_BG_CTX") != "" {
+		sr.ctx = nil
+	}
 	w.Note("shape " + s.String())
 	for _, k := range s.keys {
 		w.TrackKey(k)
